@@ -389,7 +389,9 @@ func ruleOffersAgree(r *Run) {
 		return
 	}
 	same := false
-	eachInstr(ee, func(in ssa.Instruction) {
+	// the header may be written by a helper of encError (writeStatusHeader(w, accept, st)): the value under the
+	// arguments of each call chain that leads to it
+	p.eachInstrRegion(ee, func(fn *ssa.Function, in ssa.Instruction) {
 		c, ok := in.(ssa.CallInstruction)
 		if !ok || calleeName(c) != "(net/http.Header).Set" {
 			return
@@ -398,6 +400,13 @@ func ruleOffersAgree(r *Run) {
 			v := c.Common().Args[2]
 			if v == lk.Index || p.sameValue(v, lk.Index) {
 				same = true
+			}
+			if fn != ee {
+				for _, b := range p.bindings(fn) {
+					if w := b.subst(v); w == lk.Index || p.sameValue(w, lk.Index) {
+						same = true
+					}
+				}
 			}
 		}
 	})
